@@ -356,7 +356,7 @@ func runC10IterNext(c *core.Ctx) {
 // sliced value first.
 func runC10Slice(c *core.Ctx) {
 	p := c.P
-	c.Rule("C10.slicedomain", "bounds and slice speak of the same thing: in package traversal/selector, where the bounds of a slice expression come out of a bounds-normalising helper of the package that was told a length, that length is len() of the very value that is sliced - not of another representation of it (bytes of a string versus its runes): otherwise a subset matcher over a non-ASCII string slices past the end and the walk panics", 2)
+	c.Rule("C10.slicedomain", "bounds and slice speak of the same thing: in package traversal/selector, where the bounds of a slice expression come out of a bounds-normalising helper of the package that was told a length, that length is len() of the very value that is sliced - not of another representation of it (bytes of a string versus its runes): otherwise a subset matcher over a non-ASCII string slices past the end and the walk panics", 1)
 	{
 		nsd := 0
 		for _, fn := range p.ModFns {
